@@ -203,7 +203,7 @@ PLAN = {
         level_text="Generated-input search over render sequences with a snapshot invariant and a metamorphic fresh-replica oracle. Exploration level.",
         level_note="The fresh-replica reference is produced by the library on an untouched table; an error common to every first render is invisible here (C03-C08 judge content). Items whose text embeds a memory address are not generated.",
         technique="property-based testing (rapid): snapshot invariant over render histories + metamorphic fresh-replica comparison",
-        quick=[rapid("prop", "TestProp", 3000), enum("default", "TestDefault")],
+        quick=[rapid("prop", "TestProp", 8000, shards=4), enum("default", "TestDefault")],
         thorough=[rapid("prop", "TestProp", 80000, shards=16), enum("default", "TestDefault")],
     ),
     "C15": dict(
